@@ -37,7 +37,7 @@ def cases(tier, seed, i, n):
         k = 0
         for tls in (False, True):
             for size in SIZES:
-                for shape in ('one-message', 'many-small', 'two-messages-straddle', 'eof-behind'):
+                for shape in ('one-message', 'many-small', 'two-messages-straddle', 'eof-behind', 'ends-with-empty'):
                     variants = [(None, None)]
                     if tls:
                         variants = [(16384, None), (16384, 1), (16384, 100), (16384, 4096), (1000, None), (1000, 7),
@@ -46,11 +46,11 @@ def cases(tier, seed, i, n):
                         k += 1
                         if tier == 'quick' and size > 70000 and k % 3:
                             continue
-                        yield dict(kind='sim', tls=tls, size=size, shape=shape, rec=rec, short=short, nb=2, seed=k)
+                        yield dict(kind='sim', tls=tls, size=size, shape=shape, rec=rec, short=short, nb=2 if shape != 'ends-with-empty' else 4, seed=k)
         for _ in range(300 if tier == 'quick' else 8000):
             tls = rnd.random() < 0.6
             yield dict(kind='sim', tls=tls, size=rnd.choice(SIZES + (5, 300, 20000, 70000)),
-                       shape=rnd.choice(('one-message', 'many-small', 'two-messages-straddle', 'eof-behind', 'mixed')),
+                       shape=rnd.choice(('one-message', 'many-small', 'two-messages-straddle', 'eof-behind', 'ends-with-empty', 'mixed')),
                        rec=rnd.choice((16384, 16384, 1000, 4096, 333)) if tls else None,
                        short=rnd.choice((None, None, 1, 2, 50, 1000, 4096, 16000)) if tls else None,
                        nb=rnd.randint(1, 5), seed=rnd.randrange(1 << 30))
@@ -75,7 +75,7 @@ def build_bursts(case):
     carry_exp = [None]
     for b in range(case['nb']):
         t += rnd.choice((0.0, 0.3, 4.9, 5.0, 7.0, 12.5)) if b else 0.0
-        sh = shape if shape != 'mixed' else rnd.choice(('one-message', 'many-small', 'two-messages-straddle'))
+        sh = shape if shape != 'mixed' else rnd.choice(('one-message', 'many-small', 'two-messages-straddle', 'ends-with-empty'))
         data = carry
         carry = b''
         if carry_exp[0] is not None and data:
@@ -102,6 +102,29 @@ def build_bursts(case):
                 j += 1
                 if j > 4000:
                     break
+        elif sh == 'ends-with-empty':
+            # a zero-length message is the very last thing in the burst (nothing follows in that read)
+            pl = rnd.randbytes(min(size, 2000))
+            data += F(2, pl)
+            expected.append((('binary', pl), b))
+            which = rnd.choice(('text', 'binary', 'fragmented-text', 'fragmented-binary', 'ping', 'pong'))
+            if which == 'text':
+                data += F(1, b'')
+                expected.append((('text', ''), b))
+            elif which == 'binary':
+                data += F(2, b'')
+                expected.append((('binary', b''), b))
+            elif which == 'fragmented-text':
+                data += F(1, b'foo', fin=0) + F(0, b'', fin=1)
+                expected.append((('text', 'foo'), b))
+            elif which == 'fragmented-binary':
+                data += F(2, b'', fin=0) + F(0, b'', fin=0) + F(0, b'', fin=1)
+                expected.append((('binary', b''), b))
+            elif which == 'ping':
+                data += F(9, b'')
+                expected.append((('ping', b''), b))
+            else:
+                data += F(10, b'')
         else:
             pl1 = rnd.randbytes(max(1, size // 2))
             pl2 = rnd.randbytes(max(1, size - size // 2))
